@@ -670,7 +670,7 @@ def f_model_init(ids, rng, full=False, after=True):
 
 # ------------------------------------------------------------------------- lifecycle (C13)
 
-def f_lifecycle(ids, rng, n_per_model=3, length=12, models=None, ifaces=None, fault_rate=0.0):
+def f_lifecycle(ids, rng, n_per_model=3, length=12, models=None, ifaces=None, fault_rate=0.0, any_fault_rate=0.0):
     out = []
     for name in (models or MODELS.keys()):
         W, H, col, ifs = MODELS[name]
@@ -705,6 +705,10 @@ def f_lifecycle(ids, rng, n_per_model=3, length=12, models=None, ifaces=None, fa
                                   "params": [rng.randrange(256) for _ in range(rng.randrange(0, 5))]})
                 else:
                     calls.append({"name": "clear", "c": rng.randrange(65536)})
+                if k not in ("sleep", "wake") and rng.random() < any_fault_rate:
+                    # a failure inside some other call: whatever it leaves behind (bus caches, staged bytes) must not
+                    # make a later sleep / wake send the wrong command
+                    faults.append({"call": len(calls), "k": rng.randrange(1, 30), "effect": False})
             sc_ = scn(ids, c, calls, tag="lifecycle")
             if faults:
                 sc_["faults"] = faults
@@ -798,8 +802,13 @@ def fault_bases(ids, rng, quick):
                 op2 = dict(op)
                 if op2["name"] == "set_pixels":
                     op2["win"] = [0, 0, lw - 1, lh - 1]; op2["colors"] = list(range(1, lw * lh + 1))
+                # after the failure every drawing entry point must still work, whichever comes first
                 post = [{"name": "clear", "c": 0x0B0B}, {"name": "set_pixel", "x": lw - 1, "y": lh - 1, "c": 7},
-                        {"name": "draw_iter", "px": [[0, 0, 21], [1, 0, 22], [lw, 0, 23]]}]
+                        {"name": "draw_iter", "px": [[0, 0, 21], [1, 0, 22], [lw, 0, 23]]},
+                        {"name": "fill_contiguous", "rect": [0, 0, lw, lh], "colors": {"start": 700, "len": -1}},
+                        {"name": "fill_solid", "rect": [0, 0, lw, 1], "c": 0x0C0C},
+                        {"name": "set_pixels", "win": [0, 0, lw - 1, lh - 1], "colors": list(range(31, 31 + lw * lh))}]
+                rng.shuffle(post)
                 s = scn(ids, c, pre + [op2] + post, tag="fault-op")
                 s["_target"] = len(pre) + 1
                 s["_ksample"] = (1.0 if iface in ("spi", "rec") else 0.25) if quick else 1.0
@@ -984,16 +993,17 @@ def t_testimage(rng, maxsize=40, big=()):
 
 def f_testimage_display(ids, rng, quick):
     out = []
-    plats = [("tiny565_40x36", 40, 36, ["rec", "spi"]), ("tiny666_40x36", 40, 36, ["rec"])]
+    plats = [("tiny565_40x36", 40, 36, ["rec", "spi", "p8"]), ("tiny666_40x36", 40, 36, ["rec", "spi", "p8"])]
     if not quick:
         plats += [("st7789", 240, 320, ["rec"]), ("ili9341_666", 240, 320, ["rec"])]
     for (model, W, H, ifaces) in plats:
         for (rot, mir) in ORIENTS:
             for (w, h, ox, oy) in [(W, H, 0, 0), (min(W, 36), min(H, 33), W - min(W, 36), H - min(H, 33))]:
                 for iface in ifaces:
-                    if quick and iface != "rec" and (rot, mir) not in ((0, False), (1, True)):
+                    if quick and iface != "rec" and (rot, mir) not in ((0, False), (1, True), (2, True)):
                         continue
-                    c = cfg(model, w, h, ox, oy, rot, mir, iface=iface, buf=64)
+                    # staging buffers that are / are not a whole number of pixels
+                    c = cfg(model, w, h, ox, oy, rot, mir, iface=iface, buf=rng.choice([7, 64, 100, 512]))
                     out.append(scn(ids, c, [INIT, {"name": "test_image"}], tag="testimage"))
     return out
 
@@ -1074,4 +1084,35 @@ def f_xport_faults(ids, rng, ifaces=("p8", "p16"), n=200):
         s = scn(ids, xcfg(iface, buf=rng.choice([3, 4, 6, 7, 64])), calls, tag="xport-fault")
         s["faults"] = [{"call": 2, "k": rng.randrange(1, 40), "effect": False}]
         out.append(s)
+    return out
+
+
+def f_dcs_over_transports(ids, rng, n=200):
+    """command-shaped driver calls (scroll region / offset, tearing effect, orientation, raw vendor commands with
+    0..16 parameter bytes) on the real transports with small SPI buffers: write_command / write_raw must put exactly
+    the opcode and the parameter bytes on the wire whatever the transport does with them"""
+    out = []
+    names = list(MODELS.keys())
+    for _ in range(n):
+        name = rng.choice(names)
+        W, H, col, ifs = MODELS[name]
+        iface = rng.choice(ifs + ["spi_ref"] if "spi" in ifs else ifs)
+        c = cfg(name, 4, 3, rng.randrange(0, W - 4), rng.randrange(0, H - 3), rng.randrange(4), rng.random() < 0.5,
+                iface=iface, buf=rng.choice([3, 4, 5, 6, 7, 8, 9, 12, 16, 64]), bgr=rng.random() < 0.5, refv=rng.randrange(2), refh=rng.randrange(2))
+        calls = [INIT]
+        for _ in range(rng.randrange(3, 10)):
+            k = rng.randrange(5)
+            if k == 0:
+                calls.append({"name": "scroll_region", "top": rng.choice([0, 1, 255, 256, rng.randrange(H)]), "bottom": rng.choice([0, 1, 255, 256, rng.randrange(H)])})
+            elif k == 1:
+                calls.append({"name": "scroll_offset", "v": rng.choice([0, 1, 255, 256, 0x1234, 65535, rng.randrange(65536)])})
+            elif k == 2:
+                calls.append({"name": "tearing", "mode": rng.choice(["off", "v", "hv"])})
+            elif k == 3:
+                r2, m2 = rng.choice(ORIENTS)
+                calls.append({"name": "set_orientation", "rot": r2, "mir": m2})
+            else:
+                ln = rng.choice([0, 1, 2, 3, 4, 5, 6, 7, 8, 9, 12, 15, 16])
+                calls.append({"name": "raw", "op": rng.choice([0x51, 0x53, 0xB1, 0xC5, 0xE0, 0xE1, 0xF0]), "params": [(7 * ln + 13 * i + 1) % 256 for i in range(ln)]})
+        out.append(scn(ids, c, calls, tag="dcs-transport"))
     return out
